@@ -631,7 +631,7 @@ func C11(ctx *core.Ctx) {
 	}
 
 	// ---- R3 -------------------------------------------------------------------------
-	cfg := &bounds.Config{IntBits: 64, AssumeLenI32: true, ASCIIStrings: true}
+	cfg := &bounds.Config{IntBits: IntBits(), AssumeLenI32: true, ASCIIStrings: true}
 	ctx.Assume("the string argument of an identifier-casing helper is a non-empty ASCII identifier (grammar rule Identifier)")
 	pr := bounds.New(cfg)
 	for _, fn := range cc.Fns {
